@@ -6,6 +6,7 @@ import (
 	"os"
 	"os/exec"
 	"path/filepath"
+	"regexp"
 	"runtime"
 	"sort"
 	"strings"
@@ -531,6 +532,53 @@ func checkFetch(c *fetchCase, o *vk.Obs) []string {
 func TestPropFetch(t *testing.T) {
 	vk.Main(t, vk.Spec[fetchCase]{ID: "C20", Facet: "fetch", Quick: 150, Thorough: 800, Gen: genFetch, Check: checkFetch, Journal: true, CaseTimeout: 90 * time.Second,
 		Rule: "2..12 sources fetched in parallel (drawn delays), every fetch goroutine opening binaries through ONE shared binutils object tool, then local symbolization with a fake nm; under the race detector; oracle: no data race, every source present in the merged report, symbols attached; every case is non-trivial"})
+}
+
+// ---- facet messages: pprof's own message printer under parallel fetch ----
+
+type msgCase struct{ N, GoMaxProcs int }
+
+func genMsg(t *rapid.T) *msgCase {
+	return &msgCase{N: rapid.SampledFrom([]int{8, 48, 128, 200}).Draw(t, "n"), GoMaxProcs: rapid.SampledFrom([]int{2, 8, 16}).Draw(t, "gomaxprocs")}
+}
+
+var msgLine = regexp.MustCompile(`^(Fetching profile over HTTP from http://remote\.example/profile-number-(\d{3})-abcdefghijklmnopqrstuvwxyz0123456789ABCDEFGHIJKLMNOPQRSTUVWXYZ|Saved profile in .*|Could not save profile: .*|Generating report in out|Fetched \d+ source profiles out of \d+|pprof: .*|)$`)
+
+func checkMsg(c *msgCase, o *vk.Obs) []string {
+	var e vk.Errs
+	helper := filepath.Join(os.Getenv("VERIF_BUILD"), "xhelper20")
+	if _, err := os.Stat(helper); err != nil {
+		o.Inconcl = append(o.Inconcl, "helper binary missing")
+		return nil
+	}
+	cmd := exec.Command(helper, "messages", fmt.Sprint(c.N))
+	cmd.Env = append(os.Environ(), fmt.Sprintf("GOMAXPROCS=%d", c.GoMaxProcs))
+	var stderr bytes.Buffer
+	cmd.Stderr = &stderr
+	cmd.Run()
+	seen := map[string]int{}
+	for _, l := range strings.Split(strings.TrimRight(stderr.String(), "\n"), "\n") {
+		m := msgLine.FindStringSubmatch(l)
+		switch {
+		case m == nil:
+			e.Addf("%d sources fetched in parallel: stderr has a line that is no message of pprof (torn or merged): %.300q", c.N, l)
+		case m[2] != "":
+			seen[m[2]]++
+		}
+		if len(e) > 3 {
+			break
+		}
+	}
+	if len(e) == 0 && len(seen) != c.N {
+		e.Addf("%d sources were fetched, stderr carries whole announcements for %d of them", c.N, len(seen))
+	}
+	o.NonTrivial = true
+	return e
+}
+
+func TestPropMessages(t *testing.T) {
+	vk.Main(t, vk.Spec[msgCase]{ID: "C20", Facet: "messages", Quick: 25, Thorough: 150, Gen: genMsg, Check: checkMsg, CaseTimeout: 120 * time.Second,
+		Rule: "a helper process fetches 8..200 remote sources in parallel, each fetch goroutine announcing its source, with pprof's own message printer (no UI plug-in: messages go to stderr), at GOMAXPROCS 2/8/16; oracle: every stderr line is one whole message (one announcement per source, plus the summary lines) - no torn or merged lines; every case is non-trivial"})
 }
 
 // ---- facet tempfiles: several processes and goroutines create saved profiles in one directory ----
